@@ -695,6 +695,8 @@ class MethodTr:
         if isinstance(st, ast.Assign):
             if len(st.targets) != 1:
                 raise Unsupported(st, 'chained assignment')
+            if self._message_only(st):
+                return None
             return self.assign(st.targets[0], st.value, st)
         if isinstance(st, ast.Delete):
             if len(st.targets) != 1:
@@ -814,12 +816,38 @@ class MethodTr:
             raise Unsupported(st, 'exception class outside %s' % (EXC_NAMES,))
         return exc.id
 
+    def _message_only(self, st: ast.Assign) -> bool:
+        """rule M1: `x = self.__class__.__name__` (cannot raise, no effect) where `x` is bound nowhere else in the
+        function and read only inside the arguments of `raise X(...)` is no statement: exception messages are not
+        modelled"""
+        tgt = st.targets[0]
+        if not (isinstance(tgt, ast.Name) and isinstance(st.value, ast.Attribute)
+                and ast.unparse(st.value) == '%s.__class__.__name__' % self.self_name):
+            return False
+        name = tgt.id
+        if name == self.self_name or name in self.vars or name in self.aliases \
+                or name in [a.arg for a in self.fdef.args.args]:
+            return False
+        in_raise = set()
+        for n in ast.walk(self.fdef):
+            if isinstance(n, ast.Raise) and isinstance(n.exc, ast.Call):
+                for a in n.exc.args:
+                    in_raise.update(id(m) for m in ast.walk(a))
+        for n in ast.walk(self.fdef):
+            if isinstance(n, ast.Name) and n.id == name and n is not tgt:
+                if not isinstance(n.ctx, ast.Load) or id(n) not in in_raise:
+                    return False
+        self.msg_names = getattr(self, 'msg_names', set()) | {name}
+        if 'M1:message-only-local' not in self.rules:
+            self.rules.append('M1:message-only-local')
+        return True
+
     def _harmless(self, a):
         """an argument of an exception constructor: evaluating it cannot raise (constants, variables, f-strings /
         `%r` formats of those, the class name)"""
         if isinstance(a, ast.Constant):
             return
-        if isinstance(a, ast.Name) and (a.id in self.vars or a.id in self.aliases):
+        if isinstance(a, ast.Name) and (a.id in self.vars or a.id in self.aliases or a.id in getattr(self, 'msg_names', ())):
             return
         if isinstance(a, ast.JoinedStr):
             for v in a.values:
